@@ -37,7 +37,9 @@ RULE = ("valid streams of 0-4 chunks (an empty chunk included) x one fault: inva
         "{metadata none / {} / dict / list} x {assembly} x {h5opts} x {extra value column} x {dtypes} (+ max_merge for unordered), rotating through the "
         "full cross (thorough: full cross on representative faults); failed and completed writes (create_cooler ordered / unordered, merge_coolers, coarsen_cooler; mode a and r+) aimed at a new level and at an "
         "existing non-cooler group under /resolutions of an .mcool and at a new cell of an .scool, observed through is_cooler, list_coolers, "
-        "`cooler ls` and Cooler(dest); merge_coolers and coarsen_cooler with a corrupted input as producers; zoomify_cooler and `cooler zoomify` as producers: "
+        "`cooler ls` and Cooler(dest); `cooler load -f coo|bg2` with text records whose bin id is == n_bins or beyond (bg2: a start equal to the last chromosome's length, "
+        "an exact multiple of the bin size), every position, default / small chunks / square mode: non-zero exit and no recognised cooler, or "
+        "every stored id < n_bins; merge_coolers and coarsen_cooler with a corrupted input as producers; zoomify_cooler and `cooler zoomify` as producers: "
         "1-3 base coolers, an invalid stored record (lower-triangle pixel of a symmetric-upper base, out-of-range id written raw, duplicate) in the "
         "first / second / third base, nested and non-nested resolution lists, chunk sizes 1/2/7/1000 (expected verdict computed from the coarse "
         "coordinates the record is mapped to); "
@@ -862,6 +864,130 @@ def run_zoomify(ctx, work):
     return len(cases)
 
 
+# ----------------------------------------------------------------------------- `cooler load` per input format
+LSIZES = [("chrA", 20), ("chrB", 10)]      # the LAST chromosome's length is an exact multiple of the bin size
+LBIN = 5
+LNB = 6
+
+
+def load_cases(ctx):
+    """text input of `cooler load` per format with records whose bin id ends up == n_bins or beyond (for bg2: a start equal to
+    the last chromosome's length), plus valid controls; no loader may ever write a recognised cooler holding a bin id >= n_bins"""
+    coo_valid = [[0, 1, 3], [1, 4, 2], [5, 5, 7]]
+    bg2 = lambda c1, s1, c2, s2, v: [c1, s1, s1 + LBIN, c2, s2, s2 + LBIN, v]     # noqa: E731
+    bg2_valid = [bg2("chrA", 0, "chrA", 5, 3), bg2("chrA", 5, "chrB", 0, 2), bg2("chrB", 5, "chrB", 5, 7)]
+    fams = [("coo", "control", []), ("coo", "id==n_bins (bin2)", [[2, LNB, 1]]), ("coo", "id==n_bins (both)", [[LNB, LNB, 1]]),
+            ("coo", "id beyond", [[1, LNB + 3, 1]]),
+            ("bg2", "control", []), ("bg2", "start2 == last chromosome length", [bg2("chrA", 10, "chrB", 10, 1)]),
+            ("bg2", "both starts == last chromosome length", [bg2("chrB", 10, "chrB", 10, 1)]),
+            ("bg2", "start beyond the last chromosome", [bg2("chrB", 0, "chrB", 15, 1)])]
+    cases = []
+    k = 0
+    for fmt, what, extra in fams:
+        for pos in ((0, 1, 3) if extra else (0,)):
+            for opts in ([], ["--chunksize", "2"], ["--no-symmetric-upper"]):
+                k += 1
+                if ctx.tier != "thorough" and extra and (k % 3) == 0:
+                    continue
+                rows = list(coo_valid if fmt == "coo" else bg2_valid)
+                for r in extra:
+                    rows.insert(min(pos, len(rows)), r)
+                cases.append({"grp": "load-cli", "format": fmt, "what": what, "rows": rows, "options": opts, "invalid": bool(extra)})
+    return cases
+
+
+def load_ids(case):
+    """the bin ids the records denote (value semantics): coo ids as written; bg2: offset of the chromosome + start // binsize"""
+    if case["format"] == "coo":
+        return [[r[0], r[1]] for r in case["rows"]]
+    off, o = {}, 0
+    for name, ln in LSIZES:
+        off[name] = o
+        o += -(-ln // LBIN)
+    return [[off[r[0]] + r[1] // LBIN, off[r[3]] + r[4] // LBIN] for r in case["rows"]]
+
+
+def load_impl(case, workdir):
+    import h5py
+    from click.testing import CliRunner
+    from cooler import fileops
+    from cooler.cli import cli
+    for fn in os.listdir(workdir):
+        os.remove(workdir / fn)
+    cs = workdir / "sizes.tsv"
+    cs.write_text("".join(f"{n}\t{ln}\n" for n, ln in LSIZES))
+    px = workdir / "pixels.txt"
+    px.write_text("".join("\t".join(str(x) for x in r) + "\n" for r in case["rows"]))
+    out = str(workdir / "t.cool")
+
+    def fn_():
+        res = CliRunner().invoke(cli, ["load", "-f", case["format"], *case["options"], f"{cs}:{LBIN}", str(px), out])
+        return res.exit_code
+    st, code = G.guarded(fn_, 60)
+    res = {"exit": code if st == "ok" else st, "recognised": False, "max_id": None, "nnz": None}
+    if os.path.exists(out):
+        st2, isc = G.guarded(lambda: bool(fileops.is_cooler(out)), 30)
+        res["recognised"] = isc if st2 == "ok" else "<is_cooler raised>"
+        if isc is True:
+            with h5py.File(out, "r") as f:
+                ids = list(f["pixels/bin1_id"][:]) + list(f["pixels/bin2_id"][:])
+                res["nnz"] = int(f.attrs["nnz"])
+                res["nbins"] = int(f.attrs["nbins"])
+            res["max_id"] = int(max(ids)) if ids else -1
+            res["min_id"] = int(min(ids)) if ids else 0
+    return res
+
+
+def load_oracle(case, out):
+    bad = []
+    if out["recognised"] is True:
+        if out["max_id"] >= out["nbins"] or out["min_id"] < 0:
+            bad.append(("a recognised cooler holds a bin id outside [0, n_bins)", f"< {out['nbins']}", [out["min_id"], out["max_id"]]))
+        if out["exit"] != 0:
+            bad.append(("the loader failed but left a recognised cooler", "not recognised", out["exit"]))
+    elif out["exit"] == 0:
+        bad.append(("the loader reported success without a recognised cooler", "cooler", out["recognised"]))
+    if not case["invalid"] and (out["exit"] != 0 or out["recognised"] is not True or out["nnz"] != len(case["rows"])):
+        bad.append(("valid text input was not loaded", len(case["rows"]), [out["exit"], out["recognised"], out["nnz"]]))
+    return bad
+
+
+def _load_worker(args):
+    from pathlib import Path
+    case, base = args
+    wd = Path(base) / f"p{os.getpid()}"
+    wd.mkdir(exist_ok=True)
+    return load_impl(case, wd)
+
+
+def run_load(ctx, work):
+    import multiprocessing as mp
+    cases = load_cases(ctx)
+    jobs = [(c, str(work)) for c in cases]
+    try:
+        if os.environ.get("VERIF_SERIAL") == "1":
+            raise RuntimeError
+        with mp.get_context("fork").Pool(4) as pool:
+            outs = list(pool.imap(_load_worker, jobs, chunksize=4))
+    except Exception:  # noqa: BLE001
+        outs = [_load_worker(j) for j in jobs]
+    # model: the validator on the ids the records denote (bounds check on, triangle check as the storage mode has it)
+    exprs = []
+    for c in cases:
+        symm = "--no-symmetric-upper" not in c["options"]
+        ids = [sorted(p) if symm else p for p in load_ids(c)]        # the loader mirrors lower-triangle records in symmetric mode
+        rows = C.lst([f"(({C.z(a)}, {C.z(b_)}), [0])" for a, b_ in ids])
+        exprs.append(f"(match validate_pixels (V:=list Z) {C.z(LNB)} true {C.b(symm)} false false {rows} with inl _ => false | inr _ => true end)")
+    model = C.coq_eval("From Cooler Require Import Model.Create.", exprs, tmpdir=ctx.tmp / "loadmodel")
+    for c, o, mv in zip(cases, outs, model):
+        ctx.case(c, nontrivial=True, kind=f"load-cli:{c['format']}:{'invalid' if c['invalid'] else 'control'}")
+        ctx.compare("cooler load accepted / refused", c, o["exit"] == 0 and o["recognised"] is True, bool(mv))
+        bad = load_oracle(c, o)
+        if bad:
+            ctx.fail(c, {"violations": [[str(x)[:300] for x in b_] for b_ in bad[:4]]}, None)
+    return len(cases)
+
+
 def special_cases(ctx):
     # a missing bin id (float NaN, Int64 pd.NA) compares false with every bound: defect D36, repaired; its inputs stay here as
     # an ordinary invalid-input family (regression corpus) judged by the hard oracle
@@ -922,6 +1048,7 @@ def run(ctx):
         if bad:
             ctx.fail(c, {"violations": [[str(x)[:300] for x in b_] for b_ in bad[:4]]}, None)
     nzoom = run_zoomify(ctx, work)
+    nload = run_load(ctx, work)
     outs = run_parallel([("run", c, tpl, str(work)) for c in cases])
     exprs = [model_expr(c) for c in cases]
     model = C.coq_eval("From Cooler Require Import Model.Create.", exprs, tmpdir=ctx.tmp / "model", shard=120, jobs=4)
@@ -932,7 +1059,7 @@ def run(ctx):
         if o["result"] != "ok" and o["cooler_opens"]:
             opens_failed += 1
         leftovers += bool(o["leftovers"])
-    ctx.extra["scopes"] = {"runs": len(cases), "zoomify_runs": nzoom, "faults": len(gen_faults()), "targets": len(TARGETS),
+    ctx.extra["scopes"] = {"runs": len(cases), "zoomify_runs": nzoom, "load_cli_runs": nload, "faults": len(gen_faults()), "targets": len(TARGETS),
                            "failed_runs_where_Cooler(uri)_still_constructs": opens_failed,
                            "runs_leaving_temporary_files_next_to_the_destination": leftovers,
                            "note": "Cooler(uri) does not test the format attribute; it constructs on any group that has a chroms table (recorded, not part of the oracle)"}
@@ -942,6 +1069,14 @@ def run(ctx):
 def replay(ctx, case):
     d = ctx.tmp / "c13"
     d.mkdir(exist_ok=True)
+    if case.get("grp") == "load-cli":
+        work = d / "work"
+        work.mkdir(exist_ok=True)
+        bad = load_oracle(case, load_impl(case, work))
+        for b_ in bad:
+            print("violation:", b_)
+        shutil.rmtree(ctx.tmp, ignore_errors=True)
+        return not bad
     if case.get("grp") == "zoomify":
         work = d / "work"
         work.mkdir(exist_ok=True)
